@@ -417,6 +417,13 @@ func (p *service) onPublish(msg *message.PublishMessage) error {
 
 	for i, s := range p.subs {
 		if s != nil {
+			// Client side: a Subscribe request registers its callback once per
+			// filter. When several filters of one request match, the callback
+			// is still called only once for the message.
+			if p.client && calledBefore(p.subs[:i], s) {
+				continue
+			}
+
 			fn := s.(*OnPublishFunc)
 			// use the possibly downgraded qos
 			msg.SetQoS(p.qoss[i])
@@ -427,4 +434,14 @@ func (p *service) onPublish(msg *message.PublishMessage) error {
 	}
 
 	return nil
+}
+
+// calledBefore reports whether subscriber s is already among subs.
+func calledBefore(subs []interface{}, s interface{}) bool {
+	for _, o := range subs {
+		if o == s {
+			return true
+		}
+	}
+	return false
 }
